@@ -58,6 +58,10 @@ fn main() {
                 let resp = sdharness::h_unord::umap(w, &items[1..]);
                 writeln!(out, "{}\t{}", req, resp).unwrap();
             }
+            Some("derive") => {
+                let resp = sdharness::h_derive::handle(&items[1..]);
+                writeln!(out, "{}\t{}", req, resp).unwrap();
+            }
             Some("apply-bytes") => {
                 let resp = sdharness::h_ordered::apply_bytes(&items[1..]);
                 writeln!(out, "{}\t{}", req, resp).unwrap();
